@@ -26,6 +26,9 @@ type GenCfg struct {
 	PaddedLeases bool
 	Reopen       bool
 	Aux          bool // attempts / trend operations
+	// DensePolling: the clock only moves in steps below the 10ms sweep
+	// granularity and leases are short, as with many consumers polling one store.
+	DensePolling bool
 	Weights      map[Kind]int
 }
 
@@ -316,6 +319,9 @@ func (g *Gen) Next(snap vlib.Snapshot, a *Actor, now time.Time) Op {
 		return Op{Kind: KEnqueueBatch, Envs: envs}
 	case KDequeue:
 		d := &queue.DequeueRequest{LeaseTTL: vlib.Pick(r, ttlChoices)}
+		if g.Cfg.DensePolling {
+			d.LeaseTTL = vlib.Pick(r, []time.Duration{12 * time.Millisecond, 20 * time.Millisecond, 50 * time.Millisecond})
+		}
 		if r.Chance(0.6) {
 			d.Route = vlib.Pick(r, g.Cfg.Routes)
 		}
@@ -408,6 +414,9 @@ func (g *Gen) Next(snap vlib.Snapshot, a *Actor, now time.Time) Op {
 	case KStats:
 		return Op{Kind: k}
 	case KAdvance:
+		if g.Cfg.DensePolling {
+			return Op{Kind: KAdvance, Dur: vlib.Pick(r, []time.Duration{time.Nanosecond, time.Millisecond, 3 * time.Millisecond, 4 * time.Millisecond, 7 * time.Millisecond, 9 * time.Millisecond, 9*time.Millisecond + 999*time.Microsecond})}
+		}
 		// Either a fixed step or a jump to a lease / schedule boundary.
 		if r.Chance(0.5) {
 			var bounds []int64
